@@ -80,6 +80,12 @@ func NewCtx(prop, tier string, seed int64) (*Ctx, error) {
 	for _, k := range kf {
 		if k.Property == prop {
 			c.known = append(c.known, k)
+			continue
+		}
+		for _, a := range k.Also {
+			if a == prop {
+				c.known = append(c.known, k)
+			}
 		}
 	}
 	return c, nil
